@@ -889,9 +889,13 @@ def run(ctx):
             rep.dist("wrong_contents_window", win)
             if seen_win[win] > 1:
                 continue
-            rep.violation("%s: crash point (k=%d, j=%d%s) leaves a file that opens WITHOUT error as %s -- neither the old nor "
-                          "the new member map [%s]" % (sid, b["k"], b["j"], ", write %s lost" % b["lost"] if b["lost"] is not None else "",
-                                                       b["got"][:160], win),
+            if b["class"] == "final-not-new":
+                text = "%s: the COMPLETED session leaves a file that does not open as the new member map: %s" % (sid, b["got"][:200])
+            else:
+                text = ("%s: crash point (k=%d, j=%d%s) leaves a file that opens WITHOUT error as %s -- neither the old nor "
+                        "the new member map [%s]" % (sid, b["k"], b["j"], ", write %s lost" % b["lost"] if b["lost"] is not None else "",
+                                                     b["got"][:160], win))
+            rep.violation(text,
                           {"kind": "crash-image", "session": spec_json(spec), "k": b["k"], "j": b["j"], "lost": b["lost"],
                            "class": b["class"]},
                           concrete=True,
